@@ -3,7 +3,7 @@
 # Regenerates T2_*.v from /tmp/wt_T2 into a private tree (/tmp/t2coq) and re-checks the bridge lemmas there.
 L=$1
 rm -rf /tmp/t2coq; mkdir -p /tmp/t2coq/gen /tmp/t2coq/proofs/bridge
-cp -a /verif/coq/gen/*.v /verif/coq/gen/*.vo /tmp/t2coq/gen/
+flock /verif/coq/build/.lock cp -a /verif/coq/gen/*.v /verif/coq/gen/*.vo /tmp/t2coq/gen/   # under the build lock: other checks rewrite gen/
 for f in /verif/coq/proofs/*.vo; do ln -s $f /tmp/t2coq/proofs/; done
 cp /verif/coq/proofs/bridge/*.v /tmp/t2coq/proofs/bridge/
 /venv/bin/python /verif/tools/translate/run.py --repo /tmp/wt_T2 --out /tmp/t2coq/gen 2>/dev/null | /venv/bin/python -c "
